@@ -250,6 +250,10 @@ pub fn check_bytes(ctx: &mut Ctx, bytes: &[u8], dev: &str, edit_feature: &str) {
     // a refusal must itself be a well-formed error response
     if let Obs::Refused(raw) = &obs {
         match parse_response(raw, false) {
+            // (C03: "whose end the client can determine without waiting for the connection to close" holds for every response the
+            //  framework sends, the parser's refusals included - they do not pass through Response::complete())
+            Ok(p) if p.status >= 400 && p.consumed == raw.len() && p.framing == crate::refmodel::http::Framing::UntilClose && !matches!(p.status, 100..=199 | 204 | 304) => {
+                ctx.violation(&format!("C02/refusal/{edit_feature}/no-declared-length({})", p.status), true, || witness("the refusal declares neither Content-Length nor chunked coding", String::new())); return }
             Ok(p) if p.status >= 400 && p.consumed == raw.len() => {}
             Ok(p) => { ctx.violation(&format!("C02/refusal/{edit_feature}/bad-error-response({})", p.status), true, || witness("refusal is not an error response", String::new())); return }
             Err(e) => { ctx.violation(&format!("C02/refusal/{edit_feature}/malformed-error-response"), true, || witness("refusal is malformed", e.clone())); return }
